@@ -76,3 +76,61 @@ def obs(l1, l2, flipk, flipv):
 
 
 CONFORMANCE = [("obs", ["1", "1", False, False]), ("obs", ["2", "2", False, True]), ("obs", ["1", "2", True, False]), ("obs", ["2", "1", True, True])]
+
+
+# ---- C11: the same tree evaluated again by a second Evaluator that shares the constraint objects -------------------------------
+SPEC1 = '<start> ::= <len> <c>{int(<len>)}\n<len> ::= "1" | "2"\n<c> ::= "a"\nwhere str(<len>) == "1"\n'
+G1, CS1 = load_with_constraints(SPEC1)
+G1F, CS1F = load_with_constraints(SPEC1)
+T1 = {d: G1.parse(d + "a" * int(d)) for d in "12"}
+
+
+def _observe(g, cs, t):
+    ev = Evaluator(g, list(cs), 1.0, 0, 0.0)
+    ys, ret = GeneratorWithReturn(ev.evaluate_individual(t)).collect()
+    return (len(ys), ret[0], sorted(repr(ft.tree) for ft in ret[1]))
+
+
+def _tree1(d, flip):
+    t = T1[d].deepcopy()
+    if flip:
+        ln = find(t, "<len>")
+        ln.set_children([DerivationTree(Terminal("2" if d == "1" else "1"))])
+    return t
+
+
+def repeat_equals_fresh(d1: int, flip: bool, times: int) -> bool:
+    """
+    pre: 1 <= d1 <= 2 and 1 <= times <= 3
+    post: _
+    """
+    exclude_known("repeat_equals_fresh", d1=d1, flip=flip, times=times)
+    d = "1" if d1 == 1 else "2"
+    flip = bool(flip)
+    for c in CS1:
+        if hasattr(c, "cache"):
+            c.cache.clear()
+    got = None
+    for _ in range(1 if times == 1 else (2 if times == 2 else 3)):
+        got = _observe(G1, CS1, _tree1(d, flip))  # a new Evaluator each time; the constraint objects (and their caches) are shared
+    for c in CS1F:
+        if hasattr(c, "cache"):
+            c.cache.clear()
+    want = _observe(G1F, CS1F, _tree1(d, flip))
+    return got == want
+
+
+def obs1(d, flip, times):
+    for c in CS1:
+        if hasattr(c, "cache"):
+            c.cache.clear()
+    out = []
+    for _ in range(times):
+        out.append(_observe(G1, CS1, _tree1(d, flip)))
+    return out
+
+
+CONFORMANCE += [("obs1", ["1", True, 2]), ("obs1", ["2", False, 2]), ("obs1", ["2", True, 3])]
+# the property function itself on concrete inputs: CrossHair does not reproduce list sharing through copy() of a cached fitness
+# object, so a violation that lives in that sharing is visible only natively (the driver replays a native False and reports it)
+CONFORMANCE += [("repeat_equals_fresh", [1, True, 2]), ("repeat_equals_fresh", [2, True, 3]), ("repeat_equals_fresh", [1, False, 2])]
